@@ -3,6 +3,8 @@
 package c07
 
 import (
+	"os"
+	"github.com/mycoria/mycoria/mgr"
 	"encoding/hex"
 	"fmt"
 	"math/rand/v2"
@@ -39,6 +41,29 @@ func init() {
 
 const V = 0
 
+const probeType = "c07probe"
+
+// probe counts how often the victim's ping dispatcher handled a ping of the probe type, per ping id.
+type probe struct {
+	mu      sync.Mutex
+	handled map[uint64]int
+}
+
+func (h *probe) Type() string { return probeType }
+func (h *probe) Handle(_ *mgr.WorkerCtx, f frame.Frame, hdr *router.PingHeader, _ []byte) error {
+	h.mu.Lock()
+	h.handled[hdr.PingID]++
+	h.mu.Unlock()
+	f.ReturnToPool()
+	return nil
+}
+func (h *probe) Clean(_ *mgr.WorkerCtx) error { return nil }
+func (h *probe) count(id uint64) int {
+	h.mu.Lock()
+	defer h.mu.Unlock()
+	return h.handled[id]
+}
+
 type scene struct {
 	ms  *vmesh.Mesh
 	ids []*m.Address
@@ -46,6 +71,7 @@ type scene struct {
 	r   *rand.Rand
 	// foreign: a key pair no router of the scene owns (an attacker's)
 	foreign *m.Address
+	probe   *probe
 }
 
 func helper(e *state.EncryptionSession) *state.EncryptionSessionTestHelper {
@@ -128,7 +154,10 @@ func buildScene(r *rand.Rand) (*scene, error) {
 			return nil, err
 		}
 	}
-	sc := &scene{ms: ms, ids: ids, t: t, r: r, foreign: env.NewIdentity(r, nil)}
+	sc := &scene{ms: ms, ids: ids, t: t, r: r, foreign: env.NewIdentity(r, nil), probe: &probe{handled: map[uint64]int{}}}
+	if err := ms.Nodes[V].Inst.RouterV.RegisterPingHandler(sc.probe); err != nil {
+		return nil, err
+	}
 	if err := ms.Converge(r, false); err != nil {
 		return nil, err
 	}
@@ -627,6 +656,172 @@ func runScene(res *core.Result, r *rand.Rand, exhaustiveBits bool) {
 					}
 				}
 				time.Sleep(1500 * time.Microsecond) // distinct signed timestamps per emitted ping
+			}
+		}
+	}
+	// Encrypted control pings at the edge of the replay window: ping A is handled, then exactly g-1 later pings of
+	// the same sender and class are lost and the g-th arrives, then A is delivered again. A registered probe
+	// handler counts how often the dispatcher hands A to a handler (error pings have a receive cooldown that would
+	// hide a second handling).
+	{
+		// (earlier "no encryption keys" errors legitimately discarded keys: set them up again first)
+		n1 := ms.Nodes[1]
+		n1.Inst.RouterV.HelloPing.VerifExpireHello(ms.Nodes[V].ID.IP)
+		ms.Nodes[V].Inst.RouterV.HelloPing.VerifExpireHello(n1.ID.IP)
+		time.Sleep(1500 * time.Microsecond)
+		_, _ = n1.Inst.RouterV.HelloPing.Send(ms.Nodes[V].ID.IP)
+		ms.Drain(vmesh.FIFO, 100)
+	}
+	// (only the sequence-numbered class: hundreds of signed pings sealed within milliseconds would push the
+	// sender's signed timestamps ahead of the wall clock and make its later genuine pings look delayed)
+	for _, mt := range []frame.MessageType{frame.RouterCtrl} {
+		for _, gap := range []int{1, 2, 63, 64, 65, 128} {
+			from := 1
+			emit := func(n int) ([][]byte, []uint64) {
+				var frames [][]byte
+				var ids []uint64
+				for k := 0; k < n; k++ {
+					id := r.Uint64() | 1
+					held, err := sc.intercept(func() error {
+						nd := ms.Nodes[from]
+						hdr := router.PingHeader{PingID: id, PingType: probeType, AddrHash: nd.ID.Hash, KeyType: nd.ID.Type, PublicKey: nd.ID.PublicKey}
+						hd, _ := cbor.Marshal(&hdr)
+						f, err := nd.Inst.BuilderV.NewFrameV1(nd.ID.IP, ms.Nodes[V].ID.IP, mt, nil, append(append([]byte{1, byte(len(hd))}, hd...), 0xA0), nil)
+						if err != nil {
+							return err
+						}
+						if err := f.Seal(nd.Inst.StateV.GetSession(ms.Nodes[V].ID.IP)); err != nil {
+							return err
+						}
+						return nd.Inst.RouterV.RouteFrame(f)
+					})
+					if err != nil {
+						return nil, nil
+					}
+					for _, p := range held {
+						if netip.AddrFrom16([16]byte(p.Data[16:32])) == ms.Nodes[from].ID.IP && p.Data[4] == byte(mt) {
+							frames = append(frames, p.Data)
+							ids = append(ids, id)
+						}
+					}
+				}
+				return frames, ids
+			}
+			fa, ia := emit(1)
+			if len(fa) != 1 {
+				continue
+			}
+			deliver(fa[0], from)
+			if sc.probe.count(ia[0]) != 1 {
+				continue // (no keys with this sender at the moment: nothing to judge)
+			}
+			if mt == frame.RouterPing {
+				time.Sleep(1500 * time.Microsecond)
+			}
+			later, _ := emit(gap)
+			if len(later) != gap {
+				continue
+			}
+			deliver(later[gap-1], from)
+			deliver(fa[0], from)
+			if len(ms.Panics) > 0 {
+				res.Violate("handler-panic", fmt.Sprintf("window-edge replay: %v", ms.Panics[0]), nil)
+				return
+			}
+			if n := sc.probe.count(ia[0]); n != 1 {
+				res.Violate(fmt.Sprintf("authenticated-ping-handled-twice:type%d", mt),
+					fmt.Sprintf("a control ping (message type %d) was handed to its handler %d times: it was handled, then the sender's next %d pings of that class were lost and the one after arrived, then the first ping was delivered again", mt, n, gap-1),
+					map[string]any{"gap": gap, "message_type": mt, "case_id": fmt.Sprintf("window-edge|%d|%d", mt, gap)})
+				return
+			}
+			settle()
+			res.Case(fmt.Sprintf("window-edge-replay|%d|%d", mt, gap), true)
+			res.Count("window_edge_replays_refused", 1)
+		}
+	}
+	// Poison-then-forge: an authentic peer M (node 1) sends an announcement whose hop record names an address the
+	// victim has never heard of, under M's own key (refused: the address does not derive from that key). Then a
+	// hello request arrives that claims to come from that address, with M's key in the header, signed by M.
+	// Whatever the refused announcement left behind, the hello must not create keys for that address.
+	{
+		unknown := env.NewIdentity(r, nil)
+		M := ms.Nodes[1]
+		time.Sleep(1500 * time.Microsecond)
+		held, err := sc.intercept(func() error { return M.Inst.RouterV.AnnouncePing.Send(ms.Nodes[V].ID.IP) })
+		if err == nil {
+			for _, p2 := range held {
+				if netip.AddrFrom16([16]byte(p2.Data[16:32])) != M.ID.IP || len(p2.Data) < 49+int(p2.Data[48])+2 {
+					continue
+				}
+				Q := p2.Data
+				mi := 49 + int(Q[48])
+				end := mi + 2 + (int(Q[mi])<<8 | int(Q[mi+1])) + 64
+				if end > len(Q) {
+					continue
+				}
+				att := router.AnnouncePingAttachment{Router: m.PublicAddress{IP: unknown.IP, Hash: M.ID.Hash, Type: M.ID.Type, PublicKey: M.ID.PublicKey}, Delay: 3, ForwardLabel: 31, ReturnLabel: 32}
+				ab, _ := cbor.Marshal(att)
+				ctx := make([]byte, 88)
+				copy(ctx[:16], Q[16:32])
+				copy(ctx[16:24], Q[8:16])
+				copy(ctx[24:], Q[end-64:end])
+				sig, serr := M.ID.SignWithContext(ab, ctx)
+				if serr != nil {
+					break
+				}
+				forged := append(append(append([]byte(nil), Q[:end]...), ab...), sig...)
+				before := sc.snapshot()
+				r1 := ms.DeliverOn(&vmesh.Packet{From: 1, To: V, Data: forged}, V, 1)
+				if os.Getenv("C07_DEBUG") != "" {
+					fmt.Fprintf(os.Stderr, "POISON announce: parse=%v switch=%v router=%v esc=%d\n", r1.ParseErr, r1.SwitchErr, r1.RouterErr, r1.Escalated)
+				}
+				if d := diff(before, sc.snapshot()); len(d) > 0 {
+					// (a bare stored record is bookkeeping; anything else is a change)
+					res.Count("poison_announcement_left_traces", 1)
+				}
+				settle()
+				// the forged hello
+				kxs := state.NewEncryptionSession()
+				kx, kxt, _ := kxs.InitKeyClientStart()
+				body, _ := cbor.Marshal(&router.HelloPingRequest{KeyExchange: kx, KeyExchangeType: kxt, MTU: 1400})
+				hdr := router.PingHeader{PingID: r.Uint64() | 1, PingType: "hello", AddrHash: M.ID.Hash, KeyType: M.ID.Type, PublicKey: M.ID.PublicKey}
+				hd, _ := cbor.Marshal(&hdr)
+				f, ferr := M.Inst.BuilderV.NewFrameV1(unknown.IP, ms.Nodes[V].ID.IP, frame.RouterPing, nil, append(append([]byte{1, byte(len(hd))}, hd...), body...), nil)
+				if ferr != nil {
+					break
+				}
+				f.SetTTL(0)
+				f.SetSequenceTime(time.Now().Round(time.Millisecond))
+				_ = f.SignRaw(M.ID.PrivateKey)
+				f.SetTTL(30)
+				fd, _ := f.FrameDataWithMargins(0, 0)
+				hello := append([]byte(nil), fd...)
+				f.ReturnToPool()
+				before = sc.snapshot()
+				r2 := ms.DeliverOn(&vmesh.Packet{From: 1, To: V, Data: hello}, V, 1)
+				if os.Getenv("C07_DEBUG") != "" {
+					fmt.Fprintf(os.Stderr, "POISON hello: parse=%v switch=%v router=%v esc=%d\n", r2.ParseErr, r2.SwitchErr, r2.RouterErr, r2.Escalated)
+				}
+				if len(ms.Panics) > 0 {
+					res.Violate("handler-panic", fmt.Sprintf("forged hello after a refused announcement: %v", ms.Panics[0]), nil)
+					return
+				}
+				var bad []string
+				for _, line := range diff(before, sc.snapshot()) {
+					if strings.Contains(line, "session:"+unknown.IP.String()) || strings.HasPrefix(line, "added route") || strings.HasPrefix(line, "changed") {
+						bad = append(bad, line)
+					}
+				}
+				if len(bad) > 0 {
+					res.Violate("unauthenticated-ping-changed-state:hello-request:after-refused-announcement-naming-the-address",
+						fmt.Sprintf("after the victim refused an announcement whose hop record named %s under a peer's key, a hello request claiming that address (that key in the header, signed with it) changed the victim's state: %s", unknown.IP, strings.Join(bad[:min(len(bad), 3)], "; ")),
+						map[string]any{"case_id": "poison-then-forge"})
+					return
+				}
+				settle()
+				res.Case("hello-request|after-refused-announcement-naming-the-address|src", true)
+				res.Count("poison_then_forge_refused", 1)
+				break
 			}
 		}
 	}
